@@ -19,6 +19,8 @@ git checkout -q -- .
 WITHOUT=$(go test -vet=off -count=1 -run 'TestSeededDemo$' . 2>&1 | tail -1)
 git apply $PATCH
 echo "suite_ok_lines=$SUITE"; echo "demo_with_change: $WITH"; echo "demo_without_change: $WITHOUT"
+# the evidence files under /verif/evidence must come from runs on the unchanged tree: keep them
+EVBAK=$(mktemp -d /dev/shm/evidence.bak.XXXXXX); cp -a /verif/evidence/. $EVBAK/
 cd /repo
 git apply $PATCH || { echo "patch does not apply to /repo"; exit 2; }
 RES=""
@@ -27,6 +29,7 @@ for p in $PROPS; do
   if echo "$OUT" | grep -q "^VIOLATION"; then RES="$RES $p:CAUGHT"; echo "$p: $OUT" | cut -c1-200; cp /verif/out/replay/$p.$TIER.json $OUTD/replay.$p.json 2>/dev/null; else RES="$RES $p:missed"; fi
 done
 git -C /repo checkout -- .
+cp -a $EVBAK/. /verif/evidence/; rm -rf $EVBAK
 git -C /repo status --short | head -3
 echo "RESULT $ID:$RES"
 cat > $OUTD/run.txt <<EOT
